@@ -368,6 +368,14 @@ def subscript_value(interp, o, idx, st):
     if isinstance(o, Func):
         # CUDA launch configuration: kernel[blocks, threads]
         return CudaLaunch(o, idx)
+    if type(o).__name__ == "QROf":
+        # Q[:, :k] keeps the leading k columns of the orthonormal factor
+        if len(idx) == 2 and isinstance(idx[0], tuple) and idx[0][0] == "slice" and idx[0][1] is None and idx[0][2] is None \
+                and isinstance(idx[1], tuple) and idx[1][0] == "slice" and idx[1][1] is None and idx[1][3] is None:
+            k = to_x(idx[1][2]) if idx[1][2] is not None else None
+            r = type(o)(o.V, o.mode); r.cols = k
+            return r
+        return Opaque("subscript of the QR factor")
     return Opaque(f"subscript of {type(o).__name__}")
 
 
